@@ -1122,12 +1122,17 @@ func (self *PathNode) SetField(id thrift.FieldID, val Node, opts *Options) (bool
 	if opts.StoreChildrenById && int(id) < StoreChildrenByIdShreshold && int(id) < len(self.Next) {
 		v := &self.Next[id]
 		exist := v.Path.t != 0
-		v.setNode(val)
 		if !exist {
 			// an empty by-id slot becomes the child for this id
+			v.setNode(val)
 			v.Path = NewPathFieldId(id)
+			return false, nil
 		}
-		return exist, nil
+		if v.Path.id() == id {
+			v.setNode(val)
+			return true, nil
+		}
+		// the slot holds another field (a tree not loaded by id, or an appended child): search for the id
 	}
 	// slow path: use linear search to find the id.
 	for i := StoreChildrenByIdShreshold; i < len(self.Next); i++ {
